@@ -2,13 +2,30 @@
    reference semantics (Valid) with generated programs. *)
 From GJS Require Import Base Bounds IntSize Regex Schema GoType Ident Gen Exec Valid WfP.
 
-(* comparison of Go values: structs and maps as finite maps *)
+(* the zero value of some Go type, whatever the type (the model's zero value of a referenced type is opaque: GNil) *)
+Fixpoint is_zero_val (fuel : nat) (v : gval) {struct fuel} : bool :=
+  match fuel with
+  | O => false
+  | S f =>
+      match v with
+      | GNil | GFm None => true
+      | GS s => match s with [] => true | _ => false end
+      | GB b => negb b
+      | GI z => Z.eqb z 0
+      | GF q => Qeq_bool q 0
+      | GSt fs => forallb (fun p => is_zero_val f (snd p)) fs
+      | _ => false
+      end
+  end.
+
+(* comparison of Go values: structs and maps as finite maps; first argument = model, second = implementation *)
 Fixpoint gval_eqb (fuel : nat) (a b : gval) {struct fuel} : bool :=
   match fuel with
   | O => false
   | S f =>
       match a, b with
       | GNil, GNil => true
+      | GNil, GSt _ => is_zero_val f b          (* a struct left at its zero value, where the model has the opaque zero of a reference *)
       | GS x, GS y => str_eqb x y
       | GB x, GB y => Bool.eqb x y
       | GI x, GI y => Z.eqb x y
